@@ -38,6 +38,22 @@ Engines
     C10_lru_cache_on_duration_refuted; harmless ones: C10_format_float_cache_harmless, C10_typed_cache_harmless); the inventory lists every
     memoising decorator (C10_no_cached_helper); the emitter's literal helpers are called in sessions of one process against the model.
 
+  * emit() as a function of the Program VALUE, and REJECTED / ABORTED transpilations (harness/props/c10_purity.py, coq/Lang/EmitSession.v,
+    coq/Lang/VariantSession.v, translator harness/gen/purity.py -> coq/Gen/PuritySites.v).  (A) one Program emitted several times: a sequence
+    field of an IR node that is a one-shot iterator (generator expression, map(...)) is empty after the first emit() (C10_one_shot_field_refuted,
+    C10_one_shot_second_emit_differs) although every parse()+emit() flow sees the right text (C10_one_shot_invisible_to_parse_emit_flows); with
+    list fields every session of parse()/emit() calls yields the script's text (C10_emit_session_stateless_partial); the inventory lists every
+    lazily evaluated value and how it is consumed, IR constructors taking one, and statements of emitter.py that change what emit() was given
+    (C10_no_lazy_value_escapes, C10_no_lazy_ir_field, C10_emit_never_changes_its_argument).  Oracle: EVERY program of the corpus and a corpus that
+    reaches all 65 IR node classes is parsed twice and emitted five times (same Program twice, after another transpilation, second Program,
+    fresh parse).  (B) a parse() that raises must leave nothing behind: the re-entrancy guard of _ensure_function_variant as a set per parse /
+    at module level, released in finally / by a statement (C10_variant_session_stateless_partial, C10_variant_guard_leak_refuted,
+    C10_accepted_scripts_leave_no_trace); the inventory reads where the guard set lives and how it is released
+    (C10_guards_released_or_per_call, C10_current_source_variant_guard_safe).  Oracle: valid helper programs V and poisoned twins P (same helper
+    names and call signatures; rejected while a variant is specialised / in a nested specialisation / from the pending-signature loop / at def
+    time / after all variants exist / inside loops, branches, callbacks) in the sessions V P V P P V and P P V; V itself ABORTED at a seeded
+    selection of its function calls by an injected BaseException, then V again.
+
 F-C10-promotion-order (hoisting order of _promote_branch_decls = set iteration order) is REPAIRED in the project
 (`for name in sorted(new_names)` / `sorted(promoted_set)`, known_findings.d/C10.json kind "fixed"); the model is the model
 of the repaired code (C10_order_independent, no guard), so EVERY generated program is under the byte-identity oracle and
@@ -57,8 +73,8 @@ from harness import common as C
 
 META = {
     "id": "C10",
-    "technique": "Coq proof (set-iteration oracle model of variable promotion as repaired: every hoisting loop walks sorted(set); sorted() sites; inventory of set iterations and module state regenerated from the source by an ast walker, with the obligation that NO set iteration reaches an order-sensitive consumer unsorted) + extracted-model correspondence with parse()+emit() and with _promote_branch_decls under dictated iteration orders + sha256 oracle for EVERY generated program across PYTHONHASHSEED subprocesses / dictated set iteration orders / process environments / repeated / interleaved transpilations; session model of the ctx registries with a module-level store (statelessness theorem + refutation for a shared default) instantiated by the regenerated inventory of module-level mutable objects, setdefault/get defaults and seeded ctx keys; one-name-two-roles sessions (every ordered pair of 25 roles), parse/emit interleavings, concurrent threads; near-collisions: name families that tie under non-injective sort keys in every sorted() site (model of sorted(set, key=k): any tie separates two iteration orders, an injective key none; inventory of key= arguments), twin families (one call in every spelling of the same values / depth / device name / with one argument changed, one pin in several classes, one source up to white space) in rotating sessions of one process (model of a memo table in front of the emitter's literal helpers: invisible iff the key equality refines the result; Python's == on 100 / 100.0 / True refutes it for _emit_duration_ms; inventory of cache decorators), the real helpers called in sessions against the model",
-    "level_text": "Theorems C10_* (coq/Props/C10.v): the declaration-and-block skeleton of the translation is independent of every set-iteration oracle, for every program of the modelled fragment and every construct, without guard (C10_order_independent, C10_construct_order_independent, C10_session_order_independent; the two construct shapes that used to separate two oracles no longer do: C10_two_names_in_a_branch, C10_two_unmet_names_in_a_loop), and the order that comes out is the one a code-point-ordered walk yields (C10_promotion_order_is_canonical, C10_translation_is_canonical); sorted() sites are order independent; the same algorithm walking the sets unsorted (the code before the repair of F-C10-promotion-order) IS order dependent (C10_unsorted_walk_is_order_dependent) and the repair changed no output inside the former guard (C10_repair_conservative); the rank oracles used by the harness are permutations and reach every order; every set iteration found in the current parser.py/emitter.py by the translator is sorted or order-insensitive (C10_no_unsorted_set_iteration), the sorted() sites named by the property and the four loops of the repair are present and sorted (C10_sorted_sites_present, C10_repaired_sites_sorted), no function mutates module-level state (C10_no_module_state), only pure modules are imported and no hash/id/open/eval... is used (C10_imports_are_pure, C10_no_ambient_builtins). Statelessness across calls: the session model of the device-name registries (coq/Lang/DevSession.v: ctx keys created by setdefault / read by get, a module-level store threaded through the session) gives every program its own translation whatever was transpiled before, provided no lazily created key takes a module-level object as default (C10_session_stateless, C10_parse_leaves_module_store), one shared default suffices to refute it (C10_shared_default_refuted, witness x = SerialMonitor(..) then x = Potentiometer(..); y = x.read()), and the configuration regenerated from the current source is inside the guard (C10_current_source_defaults_fresh, C10_session_stateless_current_source); no module-level mutable object of the three files is mutated or escapes (C10_module_objects_never_escape, C10_no_shared_default, C10_ctx_seeded_fresh). Canonical order with a key (coq/Lang/SortKey.v): sorted(set, key=k) is a stable sort of the set as iterated; for EVERY key type, order and key function a tie between two different names separates two iteration orders and the tied pair comes out in the set's order (C10_keyed_sort_tie_refuted, C10_keyed_sort_tie_keeps_set_order), a key that is injective on the set under a total transitive order gives one result (C10_keyed_sort_partial), the key-less sorted() of the code is the injective instance key = name (C10_keyless_sort_is_the_identity_key, C10_identity_key_injective), natural number order ties key1 / key01 (C10_natural_key_refuted), and no sorted() over a set in the current source takes a key (C10_sorted_sites_keyless). Memoised helpers (coq/Lang/MemoSession.v): a memo table with any key equality, any hit / eviction policy and any initial table of true results in front of _emit_duration_ms / _format_float is invisible provided the calls it identifies have one result (C10_memo_stateless_partial); one conflation makes the second program come out with the first one's text (C10_memo_conflation_refuted); under Python's == the int 100 of a defaulted on_ms and the float 100.0 of a spelled-out one are conflated by a cache on _emit_duration_ms (C10_lru_cache_on_duration_refuted) whereas a cache on _format_float alone and any typed=True cache are harmless (C10_format_float_cache_harmless, C10_typed_cache_harmless); the current source has no memoising decorator, hence its helpers are stateless for every session (C10_no_cached_helper, C10_helpers_stateless_current_source). The model is run against the real parse()+emit() skeleton and against _promote_branch_decls with dictated orders (exact equality); the property itself is tested by sha256 across hash seeds, dictated set orders, other CPython builds, processes, repetitions and interleavings, on every generated program.",
+    "technique": "Coq proof (set-iteration oracle model of variable promotion as repaired: every hoisting loop walks sorted(set); sorted() sites; inventory of set iterations and module state regenerated from the source by an ast walker, with the obligation that NO set iteration reaches an order-sensitive consumer unsorted) + extracted-model correspondence with parse()+emit() and with _promote_branch_decls under dictated iteration orders + sha256 oracle for EVERY generated program across PYTHONHASHSEED subprocesses / dictated set iteration orders / process environments / repeated / interleaved transpilations; session model of the ctx registries with a module-level store (statelessness theorem + refutation for a shared default) instantiated by the regenerated inventory of module-level mutable objects, setdefault/get defaults and seeded ctx keys; one-name-two-roles sessions (every ordered pair of 25 roles), parse/emit interleavings, concurrent threads; near-collisions: name families that tie under non-injective sort keys in every sorted() site (model of sorted(set, key=k): any tie separates two iteration orders, an injective key none; inventory of key= arguments), twin families (one call in every spelling of the same values / depth / device name / with one argument changed, one pin in several classes, one source up to white space) in rotating sessions of one process (model of a memo table in front of the emitter's literal helpers: invisible iff the key equality refines the result; Python's == on 100 / 100.0 / True refutes it for _emit_duration_ms; inventory of cache decorators), the real helpers called in sessions against the model; emit() as a function of the Program value: model of IR sequence fields that may be one-shot iterators (sessions of parse()/emit() calls: stateless iff the fields are lists; refuted for a generator; invisible to parse-then-emit flows), inventory of lazily evaluated values / IR constructor arguments / statements of emitter.py that change the Program, oracle emitting every Program of the corpus (and of a corpus reaching every IR node class) five times; rejected and aborted transpilations: model of the function-variant re-entrancy guard (set per parse or at module level, released in finally or by a statement: stateless iff per parse or released on every exit path; refuted otherwise with the rejected-then-valid witness), inventory of add/remove guards, poisoned-twin sessions and transpilations aborted by an injected exception",
+    "level_text": "Theorems C10_* (coq/Props/C10.v): the declaration-and-block skeleton of the translation is independent of every set-iteration oracle, for every program of the modelled fragment and every construct, without guard (C10_order_independent, C10_construct_order_independent, C10_session_order_independent; the two construct shapes that used to separate two oracles no longer do: C10_two_names_in_a_branch, C10_two_unmet_names_in_a_loop), and the order that comes out is the one a code-point-ordered walk yields (C10_promotion_order_is_canonical, C10_translation_is_canonical); sorted() sites are order independent; the same algorithm walking the sets unsorted (the code before the repair of F-C10-promotion-order) IS order dependent (C10_unsorted_walk_is_order_dependent) and the repair changed no output inside the former guard (C10_repair_conservative); the rank oracles used by the harness are permutations and reach every order; every set iteration found in the current parser.py/emitter.py by the translator is sorted or order-insensitive (C10_no_unsorted_set_iteration), the sorted() sites named by the property and the four loops of the repair are present and sorted (C10_sorted_sites_present, C10_repaired_sites_sorted), no function mutates module-level state (C10_no_module_state), only pure modules are imported and no hash/id/open/eval... is used (C10_imports_are_pure, C10_no_ambient_builtins). Statelessness across calls: the session model of the device-name registries (coq/Lang/DevSession.v: ctx keys created by setdefault / read by get, a module-level store threaded through the session) gives every program its own translation whatever was transpiled before, provided no lazily created key takes a module-level object as default (C10_session_stateless, C10_parse_leaves_module_store), one shared default suffices to refute it (C10_shared_default_refuted, witness x = SerialMonitor(..) then x = Potentiometer(..); y = x.read()), and the configuration regenerated from the current source is inside the guard (C10_current_source_defaults_fresh, C10_session_stateless_current_source); no module-level mutable object of the three files is mutated or escapes (C10_module_objects_never_escape, C10_no_shared_default, C10_ctx_seeded_fresh). Canonical order with a key (coq/Lang/SortKey.v): sorted(set, key=k) is a stable sort of the set as iterated; for EVERY key type, order and key function a tie between two different names separates two iteration orders and the tied pair comes out in the set's order (C10_keyed_sort_tie_refuted, C10_keyed_sort_tie_keeps_set_order), a key that is injective on the set under a total transitive order gives one result (C10_keyed_sort_partial), the key-less sorted() of the code is the injective instance key = name (C10_keyless_sort_is_the_identity_key, C10_identity_key_injective), natural number order ties key1 / key01 (C10_natural_key_refuted), and no sorted() over a set in the current source takes a key (C10_sorted_sites_keyless). Memoised helpers (coq/Lang/MemoSession.v): a memo table with any key equality, any hit / eviction policy and any initial table of true results in front of _emit_duration_ms / _format_float is invisible provided the calls it identifies have one result (C10_memo_stateless_partial); one conflation makes the second program come out with the first one's text (C10_memo_conflation_refuted); under Python's == the int 100 of a defaulted on_ms and the float 100.0 of a spelled-out one are conflated by a cache on _emit_duration_ms (C10_lru_cache_on_duration_refuted) whereas a cache on _format_float alone and any typed=True cache are harmless (C10_format_float_cache_harmless, C10_typed_cache_harmless); the current source has no memoising decorator, hence its helpers are stateless for every session (C10_no_cached_helper, C10_helpers_stateless_current_source). emit() as a function of the Program value (coq/Lang/EmitSession.v): a sequence field of an IR node is a list or a one-shot iterator and emit() returns the Program as it leaves it; when the parser stores the validated rows as a list, every emit() in every sequence of parse()/emit() calls of a process yields the text of the script (C10_emit_session_stateless_partial, C10_emit_repeatable_partial; masking while the node is built is harmless: C10_mask_in_parser_harmless); stored as a generator expression the second emit() of a Program differs from the first (C10_one_shot_field_refuted, C10_one_shot_second_emit_differs) while every session that parses afresh before each emit() still sees the right text (C10_one_shot_invisible_to_parse_emit_flows); in the current source every lazily evaluated value is consumed where it is made, no IR constructor takes one and no statement of emitter.py changes an object it was given (C10_no_lazy_value_escapes, C10_no_lazy_ir_field, C10_emit_never_changes_its_argument, C10_current_source_glyph_rows_reiterable, C10_emit_stateless_current_source). Rejected transpilations (coq/Lang/VariantSession.v): with the re-entrancy guard of _ensure_function_variant kept per parse, or released on every exit path, every script of every session - rejected ones included - has the outcome it has alone (C10_variant_session_stateless_partial, C10_variant_guard_per_parse_any_store, C10_parse_leaves_guard_store); kept at module level and released by a statement after the call, a script rejected while a variant is specialised makes a later valid script lose that variant and mistype its variable, and is itself accepted at the second attempt (C10_variant_guard_leak_refuted, C10_rejected_script_accepted_second_time_refuted); only a rejected script can leave such a trace (C10_accepted_scripts_leave_no_trace); the guards of the current source are per call or released in finally (C10_guards_released_or_per_call, C10_current_source_variant_guard_safe, C10_variant_session_stateless_current_source). The model is run against the real parse()+emit() skeleton and against _promote_branch_decls with dictated orders (exact equality); the property itself is tested by sha256 across hash seeds, dictated set orders, other CPython builds, processes, repetitions and interleavings, on every generated program.",
     "level_note": "Trusted: Coq kernel, translator harness/gen/setsites.py (syntactic, fail-closed ast walker), extraction, OCaml driver, CPython's PYTHONHASHSEED as the source of set-order variation. CPython set internals are over-approximated by an arbitrary permutation oracle; absence of module-level state is shown statically for the two transpiler files (ast walk) and by observation (repeated / interleaved transpilations), not by proof about CPython.",
     "design_ref": "DESIGN.md section 4 C10, Appendix B.1, B.3",
 }
@@ -875,6 +891,15 @@ def run(ctx: C.Ctx):
     thorough = ctx.tier == "thorough"
     seeds = [0, 1, 2, 3] + ([rng.randrange(4, 2 ** 32 - 1) for _ in range(4)] if thorough else [])
     dist = {}
+    import time as _time
+    _t = [_time.time()]
+    _secs = {}
+
+    def _tick(label):
+        now = _time.time()
+        _secs[label] = round(now - _t[0], 1)
+        _t[0] = now
+    dist["seconds_per_stage(measured, informative)"] = _secs
     shape, shape_detail = promotion_shape()
     dist["promotion_shape_of_the_current_source"] = {"shape": shape, **shape_detail}
 
@@ -882,6 +907,7 @@ def run(ctx: C.Ctx):
     # the first violation reported, with its witness as the replay
     dist["listed_witnesses_replayed"] = replay_fixed_findings(ctx)
 
+    _tick("start")
     # ------------------------------------------------------------------ skeleton programs
     skels = template_programs(rng)
     n_rand = 500 if thorough else 70
@@ -932,9 +958,16 @@ def run(ctx: C.Ctx):
         src, feats = c10_twins.collision_program(rng, k)
         devs.append({"src": src, "feats": feats, "origin": "collision", "in_guard": True})
 
+    # helper programs (function variants for several call signatures, nested / recursive helpers, calls before the def) and LCD glyph
+    # scripts: the programs of harness/props/c10_purity.py also go through every oracle below
+    from harness.props import c10_purity
+    for src, origin in c10_purity.extra_corpus(rng, thorough):
+        devs.append({"src": src, "feats": {}, "origin": origin, "in_guard": True})
+
     progs = skels + devs
     sources = [p["src"] for p in progs]
 
+    _tick("generated")
     # ------------------------------------------------------------------ transpile under every seed (one process per seed)
     adv_keys = ["asc", "desc", "k%d" % rng.randrange(10 ** 6)] + (["k%d" % rng.randrange(10 ** 6) for _ in range(3)] if thorough else [])
     variants = [("seed", sd) for sd in seeds] + [("adv", k) for k in adv_keys] + [("env", "other")]
@@ -963,6 +996,7 @@ def run(ctx: C.Ctx):
         if not d["ref"]["ok"]:
             ctx.disagree("generated device program is rejected by the transpiler (generator bug)", d["src"], None, d["ref"])
 
+    _tick("variants transpiled")
     # ------------------------------------------------------------------ property oracle 1: hash seeds
     def report(kind, p, a, b, sa, sb, what):
         # fetch both texts for the replay
@@ -1037,6 +1071,7 @@ def run(ctx: C.Ctx):
         dist["other_interpreters"][py] = {"version": ra.get("python"), "programs_differing_from_the_reference_interpreter": cross,
                                            "(not constrained by the statement, recorded only)": True}
 
+    _tick("hash-seed oracle")
     # ------------------------------------------------------------------ property oracle 2: one process, repeated and interleaved
     guard_idx = [i for i, p in enumerate(progs) if p["in_guard"] and p["ref"]["ok"]]
     all_idx = list(range(len(progs)))
@@ -1079,6 +1114,7 @@ def run(ctx: C.Ctx):
     dist["session_steps"] = len(script)
     dist["fresh_process_samples"] = len(sample)
 
+    _tick("sessions oracle")
     # ------------------------------------------------------------------ correspondence 1: skeleton of parse()+emit() vs Order.transl
     n_corr = 0
     n_promoting = 0
@@ -1131,6 +1167,7 @@ def run(ctx: C.Ctx):
     dist["skeleton_correspondence_cases"] = n_corr
     dist["hoisted_declarations_per_program(capped 8)"] = {str(k): v for k, v in sorted(promoted_sizes.items())}
 
+    _tick("skeleton correspondence")
     # ------------------------------------------------------------------ correspondence 2: the real _promote_branch_decls with dictated orders
     n_prom = 0
     if have_model:
@@ -1238,6 +1275,7 @@ def run(ctx: C.Ctx):
         dist["sorted_site_sizes"] = {w: sorted({len(o) for (dd, ww, o) in back if ww == w}) for w in ("button polls", "ultrasonic helpers", "LCD ticks")}
     dist["sorted_cases"] = n_sorted
 
+    _tick("promote+sorted correspondence")
     # ------------------------------------------------------------------ property oracle 3 + correspondence 4: one NAME, two roles,
     # two programs, one process (every ordered pair of roles; pool sessions; parse/emit interleavings; Lang/DevSession.v fragment)
     from harness.props import c10_roles
@@ -1245,6 +1283,7 @@ def run(ctx: C.Ctx):
     evaluations += ev_roles
     dist["name_collisions"] = dist_roles
 
+    _tick("role collisions")
     # ------------------------------------------------------------------ property oracle 4: twin families (one call in every spelling
     # of the same values / at every depth) in every rotation in one process; correspondence 5: the emitter's literal helpers
     ev_tw, nt_tw, dist_tw = c10_twins.run_twins(ctx, C, seeds[0])
@@ -1255,6 +1294,14 @@ def run(ctx: C.Ctx):
         n_helper, dist_h = c10_twins.run_helper_correspondence(ctx, C, seeds[0])
         dist["emitter_literal_helpers"] = dist_h
 
+    _tick("twin families")
+    # ------------------------------------------------------------------ property oracles 5, 6 + correspondences 6, 7: one Program emitted
+    # several times (every program above + a corpus reaching every IR node class); sessions that contain REJECTED scripts
+    ev_pu, nt_pu, dist_pu = c10_purity.run_purity(ctx, C, seeds[0], have_model, progs)
+    evaluations += ev_pu
+    dist["emit_purity_and_rejected_parses"] = dist_pu
+
+    _tick("purity")
     feats_total = {}
     for d in devs:
         for k, v in d["feats"].items():
@@ -1272,8 +1319,8 @@ def run(ctx: C.Ctx):
     ctx.coverage.update({
         "evaluations": evaluations + n_corr + n_prom + n_sorted + n_helper,
         "distinct_nontrivial": len({p["src"] for p in progs if p["origin"] != "device"}
-                                   & {s["src"] for s in skels if sum(1 for _ in _iter_hoists(s.get("model0", {}))) > 0}) + multi + n_prom + nt_roles + nt_tw,
-        "rule": "skeleton programs: templates (k = 0..6 names first assigned in an if / if-else / if-elif-else / while / for / try body, at top level, in a function, in the main loop, nested) + seeded random nested programs; device programs: random subsets of every device class with 0..6 instances, callbacks, lists, multi-signature functions, tuple swaps; mixed = both. Every program is transpiled in one subprocess per hash seed and per dictated set order (the name `set` of parser.py/emitter.py bound to a subclass iterating sorted / reverse sorted / in a keyed pseudo-random order), then in one process twice in a row, in reverse order between unrelated programs, shuffled, and (a sample) in fresh processes; sha256 of the text is compared. Name collisions (c10_roles.py): for every ordered pair (a, b) of 25 roles an identifier can have, with a name of its own, the sessions `A B B'` / `all A, then B B' reversed` against `B B'` alone (A = name in role a, B = same name in role b with all probes of b, B' = B + one probe of a); 60 (240) pool programs giving 2-4 of 6 pool names random roles, in 3 (6) orders in one process and after a module reset; parse/emit interleavings (p_i p_j e_j e_i, p_i p_j e_i e_j e_i, p_i e_i e_i, p_i t_j e_i); 4 concurrent threads; 220 (900) + 60 device-registry programs of the DevSession fragment in two orders, compared with transl_dev. Half of the random skeleton programs and most templates put several new names into one branch (the region the guard of the repaired finding F-C10-promotion-order used to exclude; counted in distribution). Near-collisions (c10_twins.py): 36 (150) collision programs + 24 (90) skeleton programs whose names are a NAME FAMILY (2-6 identifiers that tie under leading zeros / natural order / case / underscores / length / prefix / first-and-last character keys; every family keeps one pair of its first kind) in 2-7 of the sets behind sorted() (buttons with one callback, LCDs with identical animations, ultrasonics, names first assigned in if / if-else / elif / try / while / for bodies at top level, in a function, in the main loop) - they go through every oracle above; TWIN FAMILIES: for each of 26 device methods every distinct spelling (int, float, bool, folded constants, defaults omitted, all positional) at 2 (7) depths, one spelling at 4 (7) depths on two device names, the call with one argument changed; one pin in several device classes; plain statements with equal-valued literals; one source in 11 white-space / comment / line-end variants - 7 sessions in one process each (rotation r starts every family at its r-th member, odd rotations walk the families backwards), a program's text must be the same in all of them and after a module reset (12 (60) sampled); a difference is confirmed and shrunk in fresh processes. Helper sessions: 30 (120) random + 7 fixed sessions of 2-4 programs of 1-5 calls of _emit_duration_ms / _format_float with ints, whole and fractional dyadic floats, bools, negative values and expression text, one session per module reset, against MemoSession.session under the regenerated cache table. Non-trivial = programs that hoist at least one declaration, every twin family, every role pair, pool program and accepted device-registry program, device programs whose sorted sites have >= 2 elements, and every dictated-order promotion case.",
+                                   & {s["src"] for s in skels if sum(1 for _ in _iter_hoists(s.get("model0", {}))) > 0}) + multi + n_prom + nt_roles + nt_tw + nt_pu,
+        "rule": "skeleton programs: templates (k = 0..6 names first assigned in an if / if-else / if-elif-else / while / for / try body, at top level, in a function, in the main loop, nested) + seeded random nested programs; device programs: random subsets of every device class with 0..6 instances, callbacks, lists, multi-signature functions, tuple swaps; mixed = both. Every program is transpiled in one subprocess per hash seed and per dictated set order (the name `set` of parser.py/emitter.py bound to a subclass iterating sorted / reverse sorted / in a keyed pseudo-random order), then in one process twice in a row, in reverse order between unrelated programs, shuffled, and (a sample) in fresh processes; sha256 of the text is compared. Name collisions (c10_roles.py): for every ordered pair (a, b) of 25 roles an identifier can have, with a name of its own, the sessions `A B B'` / `all A, then B B' reversed` against `B B'` alone (A = name in role a, B = same name in role b with all probes of b, B' = B + one probe of a); 60 (240) pool programs giving 2-4 of 6 pool names random roles, in 3 (6) orders in one process and after a module reset; parse/emit interleavings (p_i p_j e_j e_i, p_i p_j e_i e_j e_i, p_i e_i e_i, p_i t_j e_i); 4 concurrent threads; 220 (900) + 60 device-registry programs of the DevSession fragment in two orders, compared with transl_dev. Half of the random skeleton programs and most templates put several new names into one branch (the region the guard of the repaired finding F-C10-promotion-order used to exclude; counted in distribution). Near-collisions (c10_twins.py): 36 (150) collision programs + 24 (90) skeleton programs whose names are a NAME FAMILY (2-6 identifiers that tie under leading zeros / natural order / case / underscores / length / prefix / first-and-last character keys; every family keeps one pair of its first kind) in 2-7 of the sets behind sorted() (buttons with one callback, LCDs with identical animations, ultrasonics, names first assigned in if / if-else / elif / try / while / for bodies at top level, in a function, in the main loop) - they go through every oracle above; TWIN FAMILIES: for each of 26 device methods every distinct spelling (int, float, bool, folded constants, defaults omitted, all positional) at 2 (7) depths, one spelling at 4 (7) depths on two device names, the call with one argument changed; one pin in several device classes; plain statements with equal-valued literals; one source in 11 white-space / comment / line-end variants - 7 sessions in one process each (rotation r starts every family at its r-th member, odd rotations walk the families backwards), a program's text must be the same in all of them and after a module reset (12 (60) sampled); a difference is confirmed and shrunk in fresh processes. Helper sessions: 30 (120) random + 7 fixed sessions of 2-4 programs of 1-5 calls of _emit_duration_ms / _format_float with ints, whole and fractional dyadic floats, bools, negative values and expression text, one session per module reset, against MemoSession.session under the regenerated cache table. Emit purity (c10_purity.py): every accepted program above + 4 glyph scripts (setup / loop / function / branch) + a break/continue script + the statement catalog of harness/c06_pairs.py in 6 (13, twice) kinds of block (all 65 IR node classes reached, measured): p2 = parse(s); p = parse(s); emit(p); emit(p); emit(parse(other)); emit(p); emit(parse(s)); emit(p2) - one sha256; a failing catalog script is reduced by ddmin; 30 (120) glyph sessions (1-3 scripts, 1-2 displays, rows with bits above 5 / negative / float spellings, random parse/emit op sequences) against EmitSession.esession. Rejected parses: 28 (112) helper families of 14 shapes, each V with 1-2 poisoned twins, sessions V P V P P V | reset | P P V; 14 (112) V's aborted at the quarter (eighth) points and 1 (3) random points of their call sequence by an injected BaseException, then transpiled again; 40 (160) + 3 sessions of 2-5 single-level helper programs (40 % rejected) against VariantSession.vsession. 14 (42) helper programs and 6 (24) glyph scripts also join the main corpus (hash seeds, dictated orders, environments, sessions). Non-trivial = programs that hoist at least one declaration, every twin family, every role pair, pool program and accepted device-registry program, device programs whose sorted sites have >= 2 elements, and every dictated-order promotion case.",
         "samples": [skels[0]["src"], skels[len(skels) // 2]["src"], devs[0]["src"][:1500]],
         "distribution": dist,
         "guard": "none: every generated program is under the byte-identity oracle and the correspondence (C10_order_independent is unconditional). F-C10-promotion-order is repaired by a fix: commit (known_findings.d/C10.json kind=fixed) - a fixed entry suppresses nothing: on a tree without the sorted() calls C10_no_unsorted_set_iteration / C10_repaired_sites_sorted do not check, the witness replay fails and is reported as a VIOLATION",
@@ -1285,12 +1332,17 @@ def run(ctx: C.Ctx):
                        "sorted(set, key=k): modelled for an arbitrary key (Lang/SortKey.v); the three concrete keys (natural order, ASCII lower, length) are ASCII-only (Python's \\d and str.lower also cover other scripts)",
                        "memo tables: modelled in front of _emit_duration_ms and _format_float only (Lang/MemoSession.v), floats as exact rationals (-0.0 / nan / inf outside); a memo in front of any other function is covered by the inventory (cache decorators, module-level state) and the twin-family oracle only",
                        "set displays / set comprehensions keep CPython's own order under the dictated-order runs (only sets built through the name `set` are dictated); they vary with the hash seeds only",
+                       "emit() purity: the model (Lang/EmitSession.v) covers the sequence field of LCDGlyph and flat node lists; every other IR field and node kind is covered by the inventory (lazy values, emit() changing its argument - syntactic: objects reached through attributes / getattr and local aliases of them; a mutation through a callee's parameter is not followed) and by the five-emits oracle over a corpus reaching every IR node class",
+                       "rejected parses: the model (Lang/VariantSession.v) covers one-parameter helpers returning the parameter / literals, defined before column-0 calls, no recursion (the guard's own purpose), no redefinition; nested and recursive helpers, calls before the def, calls inside loops / branches / callbacks, two-parameter helpers are covered by the poisoned-twin oracle only; state other than the variant guard left by a rejected parse is covered by the oracle and the module-state inventory only",
+                       "aborted transpilations: exceptions are injected at function-call boundaries of parser.py / emitter.py only (not between two statements of one function), from a trace function, in helper programs only",
                        "platform differences other than hash seeds (one CPython build here)"],
-        "trusted_base": C.COMMON_TRUSTED + ["harness/props/c10_twins.py (name families, twin families, rotating sessions, reading the helper results back)", "harness/props/c10_roles.py (role templates, session scripts, fresh-process confirmation of a failing pair)","harness/gen/setsites.py (syntactic set-kind inference over parser.py/emitter.py, fail-closed)",
+        "trusted_base": C.COMMON_TRUSTED + ["harness/props/c10_twins.py (name families, twin families, rotating sessions, reading the helper results back)", "harness/props/c10_roles.py (role templates, session scripts, fresh-process confirmation of a failing pair)","harness/gen/setsites.py (syntactic set-kind inference over parser.py/emitter.py, fail-closed)", "harness/gen/purity.py (syntactic inventory of lazy values, IR constructor arguments, emitter statements changing their argument, add/remove guards; fail-closed)", "harness/props/c10_purity.py (IR coverage corpus from harness/c06_pairs.py, poisoned twins, glyph / helper sessions, reading glyph arrays / function definitions / global types back from the text)",
                                             "harness/impl/c10_impl.py (runs parse()+emit(); OrderedNames dictates the iteration order of `var_declared - base`; AdvSet dictates the iteration order of every set built through the name `set` in parser.py/emitter.py - set displays/comprehensions keep CPython's order)",
                                             "PYTHONHASHSEED as the only source of set-order variation exercised"],
     })
-    ctx.assumptions += ["sorted() is stable and a memo table compares keys by == (CPython semantics, modelled in Lang/SortKey.v / Lang/MemoSession.v)",
+    ctx.assumptions += ["iterating a list leaves it unchanged, iterating a generator / map / zip / iter object exhausts it (CPython semantics, modelled in Lang/EmitSession.v)",
+                        "a finally block runs on every exit path, a statement after a call is skipped by an exception (modelled in Lang/VariantSession.v)",
+                        "sorted() is stable and a memo table compares keys by == (CPython semantics, modelled in Lang/SortKey.v / Lang/MemoSession.v)",
                         "a module-level object handed to a call / stored / returned may be mutated by whoever receives it (the inventory reports the escape, it does not follow it)","every iteration order of a Python set is some permutation of its elements (perm_oracle)",
                         "str hashing is the only hash-seed dependent ingredient of the transpiler's sets (their elements are str)"]
 
